@@ -72,6 +72,7 @@ CALLS = [
     ((SKIP, V), ()), ((V, SKIP), ()), ((V,), ('b',)), ((), ('a', 'b')),
     ((V,), ('a',)), ((V,), ('zz',)), ((), ('a',)), ((V, V), ('k',)),
     ((V,), ('bAlias',)), ((), ('aAlias', 'bAlias')), ((V,), ('b', 'zz')),
+    ((V, SKIP, V), ()),
 ]
 
 
@@ -116,6 +117,12 @@ def ref_bind(sig, args, kwkeys):
         for k in kw:
             keyword[k] = '**'
     if any(x is None for x in positional):
+        return None
+    # an empty slot stands for the parameter's default; the variadic region
+    # has none, so `f(1,,2)` binds nothing there
+    if star is not None and any(
+            positional[i] == star.key and args[i] != V
+            for i in range(len(args))):
         return None
     return positional, keyword
 
